@@ -655,6 +655,17 @@ def cd3(F, R):
             if c[0] == "arr":
                 got = bytes(int_const(x) for x in c[1])
         R.require(got == want, f, nm, "%s() must be %r, got %r" % (nm, want, got), f.loc(0))
+    # a name is judged character by character only: nothing is rejected before the first character is looked at (a length
+    # pre-check in bytes would refuse valid names with Latin-1 letters, which take two bytes in UTF-8)
+    for f in (fn, fv):
+        from .fsmodel import err_returns
+        nx = [b for b, t in f.calls() if (callee_of(t) or "").endswith("Iterator::next") and "Chars" in t.get("callee_full", "")]
+        if not nx:
+            R.bad(f, "char-loop", "no loop over name.chars() in %s" % f.npath, f.loc(0), kind="anchor-missing")
+            continue
+        pre = f.reach([0], cut_blocks=nx)
+        early = [(b, i) for (b, i, var, term) in err_returns(f, adt="FilenameError") if b in pre]
+        R.require(not early, f, f.npath.split("::")[-2] + ":no-early-rejection", "%s rejects a name before looking at its characters (e.g. by its length in UTF-8 bytes)" % f.npath.split("::")[-2], f.loc(early[0][0], early[0][1]) if early else f.loc(0))
     # special-casing of "", "." and ".." before the loop
     s_ = " ".join(tstr(fn.call_term(t, b)) for b, t in fn.calls())
     R.require("this_dir" in s_ and "parent_dir" in s_ and "is_empty" in s_, fn, "special-names", "create_from_str must map '' and '.' to this_dir() and '..' to parent_dir()", fn.loc(0))
